@@ -85,6 +85,10 @@ EDITS = [
      [("        total = sum(votes.values())\n        return [\n            cand for cand, n_votes in votelib.util.sorted_votes(votes)\n            if (\n" + REL_COND + "            )\n        ]\n",
        "        tot = sum(votes.values())\n        return [\n            cand for cand, n_votes in votelib.util.sorted_votes(votes)\n"
        "            if Fraction(n_votes, tot) > self.threshold or (self.accept_equal and self.threshold == Fraction(n_votes, tot))\n        ]\n")], 'holds'),
+    ('threshold.py: module defines its own sum()', 'Threshold', 'GenTie_Threshold', THR,
+     [("from fractions import Fraction\n", "from fractions import Fraction\n\n\ndef sum(values):\n    return 0\n")], 'rejects'),
+    ('threshold.py: Fraction imported from elsewhere', 'Threshold', 'GenTie_Threshold', THR,
+     [("from fractions import Fraction\n", "from decimal import Decimal as Fraction\n")], 'rejects'),
     ('Alternative: intersection instead of union', 'Threshold', 'GenTie_Threshold', THR,
      [("            cand for res in partial_results for cand in res\n",
        "            cand for cand in partial_results[0] if all(cand in res for res in partial_results)\n")], 'rejects'),
